@@ -67,6 +67,11 @@ def _exact(e, env, ws, hits):
         if e.ty == INT:
             return int(v)
         raise _NotConst()
+    if isinstance(e, Spec):
+        # a ?? of two constants is folded to its left operand
+        l = _exact(e.l, env, ws, hits)
+        _exact(e.r, env, ws, hits)
+        return l
     if isinstance(e, Bin):
         if e.op in ('and', 'or'):
             l = consume(_exact(e.l, env, ws, hits))
